@@ -263,7 +263,25 @@ func c16Case(c *Ctx) {
 					presetByName[n]()
 				}
 			}()
-			c.Count("knob_excursions", 2)
+			// a caller allows a single attempt and keeps the default tolerance: recipes without requirements
+			// (every preset, the default character recipe) cannot fail, so nothing may change for them
+			func() {
+				defer knobs(1, 1e-9)()
+				for _, n := range presetNames {
+					for i := 0; i < 5; i++ {
+						s, _ := presetByName[n]()
+						c.Exec(1)
+						if (s == "") != (n == "SFNone") {
+							c.Violate("preset-"+n, fmt.Sprintf("with MaxTrials=1 and the default MaxFailRate the preset %s returned %q", n, s), nil)
+							return
+						}
+					}
+				}
+				if g := runGen(*spg.NewCharRecipe(12), nil); g.Pw == nil {
+					c.Violate("newcharrecipe-defaults", fmt.Sprintf("with MaxTrials=1 and the default MaxFailRate NewCharRecipe(12).Generate() gave err=%v panic=%v: a recipe without requirements cannot fail", g.Err, g.Panic), nil)
+				}
+			}()
+			c.Count("knob_excursions", 3)
 			// a caller-written separator function that panics (as the library itself does when the source
 			// fails) inside Generate and inside Entropy; the caller recovers; then the presets are used
 			func() {
